@@ -140,10 +140,15 @@ func c15map(hasType bool, ty string, mask int, extras map[string]any, form strin
 			om.Set("type", "trigger")
 			dead = append(dead, "type")
 		}
+		// (a third of these maps stays small: only one unwanted kind key next to the `type`, so that maps of a few
+		// entries with a dead slot occur as well as large ones)
+		small := (mask/3)%3 == 0
+		nDead := 0
 		for i, k := range c15keys {
-			if mask&(1<<i) == 0 && (i+mask)%2 == 0 {
+			if mask&(1<<i) == 0 && (i+mask)%2 == 0 && (!small || nDead < 1) {
 				om.Set(k, c15vals[k])
 				dead = append(dead, k)
+				nDead++
 			}
 		}
 		// (every other time the unwanted keys are deleted BEFORE the real ones are set, so that the real keys are
